@@ -137,7 +137,7 @@ int main(int argc, char **argv) {
   if (a.worker % 4 == 0) {
     std::vector<std::string> names = {"openssl", "gnutls", "mbedtls", "OpenSSL", "GNUTLS", "Gnutls", "openss", "openssl ", " openssl", "openssl\t", "opensslx", "gnutl", "gnutlss", "", "o", "g", "openssl,gnutls", "gnutls\n", "wincrypt", "none", "any", "opensslgnutls", "\xc3\xb6penssl", "openssl\xc2\xa0", "GnuTLS", "oPENSSL"};
     Rng rng(a.seed * 7 + a.worker); for (int i = 0; i < 60; i++) { std::string b = (i & 1) ? "openssl" : "gnutls"; int k = rng.below(4); size_t pos = rng.below(b.size() + 1); if (k == 0) b.insert(pos, 1, (char)(0x20 + rng.below(0x5f))); else if (k == 1 && pos < b.size()) b.erase(pos, 1); else if (k == 2 && pos < b.size()) b[pos] ^= 0x20; else b += b; names.push_back(b); }
-    for (auto &n : names) for (int start = 0; start < 2; start++) { std::string d, r = run_names(n, start, &d); st.evaluations++; st.cls("provider-names"); if (n != "openssl" && n != "gnutls") st.nontrivial(fnv(n) + start); if (!r.empty()) st.violation("C12:" + r, "provider switch by name misbehaves for " + d, d); }
+    for (auto &n : names) for (int start = 0; start < 2; start++) { std::string d, r = run_names(n, start, &d); st.evaluations++; st.cls("provider-names"); if (st.want_sample()) st.sample(d); if (n != "openssl" && n != "gnutls") st.nontrivial(fnv(n) + start); if (!r.empty()) st.violation("C12:" + r, "provider switch by name misbehaves for " + d, d); }
     for (int id = -5; id <= 10; id++) for (int start = 0; start < 2; start++) { std::string d, r = run_ids(id, start, &d); st.evaluations++; st.cls("provider-ids"); st.nontrivial(mix(id + 100, start)); if (!r.empty()) st.violation("C12:" + r, "provider switch by id misbehaves for " + d, d); }
     for (int i = 0; i < 20; i++) { int id = (int)rng.next(); if (id == 1 || id == 2) continue; std::string d, r = run_ids(id, i & 1, &d); st.evaluations++; st.cls("provider-ids"); if (!r.empty()) st.violation("C12:" + r, "provider switch by id misbehaves for " + d, d); }
     if (a.worker == 0) for (const char *v : {"openssl", "gnutls", "GnuTLS", "gnutls ", "mbedtls", "", "x", "opensslx", "gnutl"}) { std::string d, r = run_env(argv[0], v, &d); st.evaluations++; st.cls("JWT_CRYPTO-env-values"); st.nontrivial(fnv(std::string("env") + v)); if (!r.empty()) st.violation("C12:" + r, "JWT_CRYPTO handling: " + d, d); }
@@ -146,7 +146,7 @@ int main(int argc, char **argv) {
   { int idx = 0; int reps = a.thorough() ? 12 : 2;
     for (auto &cell : cells) for (int l = 0; l < 2; l++) for (int s = 0; s < 2; s++) for (int v2 = 0; v2 < 2; v2++) for (int rep = 0; rep < reps; rep++) {
       if ((idx++ % a.nworkers) != a.worker) continue;
-      std::string d, r = run_cross(cell.first, cell.second, l, s, v2, rep + (int)a.seed * 100, &d); st.evaluations++; st.cls("cross-provider-cells"); if (s != v2 || l != s) st.nontrivial_distinct();
+      std::string d, r = run_cross(cell.first, cell.second, l, s, v2, rep + (int)a.seed * 100, &d); st.evaluations++; st.cls("cross-provider-cells"); if (st.want_sample()) st.sample(d); if (s != v2 || l != s) st.nontrivial_distinct();
       if (!r.empty()) st.violation("C12:" + r, "cross-provider use fails: " + d, d);
     } }
   // ---- ECDSA volume: each provider must accept the other's signatures also when r or s is short (1/128 per signature)
